@@ -363,15 +363,15 @@ func (w *vbvWorld) realise(t *testing.T, o vbvOp) (*vbvBuilt, bool) {
 		}
 		if o.Layout == "bad-pre" {
 			var data []byte
-			switch rng.Intn(4) {
+			// (a TRUNCATED claim is not used: whether the SCALE decoder rejects short input is C12's
+			// subject; with a zero-filling decoder a truncated claim is simply a claim for another slot)
+			switch rng.Intn(3) {
 			case 0:
 				data = []byte{}
 			case 1:
-				data = append([]byte{4}, pre.Data[1:]...) // unknown claim kind 4
-			case 2:
-				data = append([]byte{0}, pre.Data[1:]...) // unknown claim kind 0
+				data = append([]byte{4 + byte(rng.Intn(250))}, pre.Data[1:]...) // unknown claim kind >= 4
 			default:
-				data = pre.Data[:1+rng.Intn(len(pre.Data)-1)] // truncated
+				data = append([]byte{0}, pre.Data[1:]...) // unknown claim kind 0
 			}
 			pre = &types.PreRuntimeDigest{ConsensusEngineID: types.BabeEngineID, Data: data}
 		}
